@@ -346,4 +346,29 @@ theorem recs_specFrom_sublist {res md : Int} {idx : Nat} : ∀ (ms : List Msg) (
           simp only [hdr, recs, List.cons_append, List.nil_append]
           exact List.Sublist.cons_cons _ (ih _)
 
+/-! ### which column is the time field -/
+
+theorem schemaTimeField_spec (want : String) : ∀ (fields : List (String × Bool)) (o i : Nat),
+    schemaTimeField want fields o = .ok i →
+      o ≤ i ∧ materializeIndex want fields o = some i ∧ fields[i - o]? = some (want, true) ∧
+      ∀ j, j < i - o → ∀ f, fields[j]? = some f → f.1 ≠ want
+  | [], o, i, h => by simp [schemaTimeField] at h
+  | (name, isTime) :: rest, o, i, h => by
+    simp only [schemaTimeField] at h
+    by_cases hn : want = name
+    · subst hn
+      cases isTime with
+      | false => simp at h
+      | true =>
+        simp at h; subst h
+        simp [materializeIndex]
+    · simp only [ne_eq, hn, not_false_eq_true, if_true] at h
+      obtain ⟨h1, h2, h3, h4⟩ := schemaTimeField_spec want rest (o + 1) i h
+      have e : i - o = (i - (o + 1)) + 1 := by omega
+      refine ⟨by omega, by simp [materializeIndex, hn, h2], by rw [e]; simpa using h3, ?_⟩
+      intro j hj f hf
+      cases j with
+      | zero => simp at hf; subst hf; exact fun h => hn h.symm
+      | succ j' => exact h4 j' (by omega) f (by simpa using hf)
+
 end Octo.MaxDiff
